@@ -1,5 +1,6 @@
 import Duckling.Model.Compile
 import Duckling.Lemmas.TabRound
+import Duckling.Lemmas.TabSound
 /-
   C03 — indentation alone determines block structure.
 
@@ -23,6 +24,12 @@ import Duckling.Lemmas.TabRound
                                   lines of the text are the rendering of the tree, `parse_document` returns exactly that tree (`toNodes`),
                                   each line carrying the number it had in the text.  Hence the tree does not depend on the unit or on the
                                   blank lines (`C03_unit_and_blank_independent`), and no code line is dropped or attached elsewhere;
+  * `C03_no_line_dropped`        **soundness on ANY text** (not only renderings of a tree; `Lemmas/TabSound`, invariant over the line loop and
+                                  induction over the recursion): whenever `parse_document` succeeds, the code lines of the returned tree,
+                                  read in document order, carry source line numbers in strictly the source order (a sublist of 1, 2, …, n:
+                                  no line invented, duplicated or moved before an earlier one), and EVERY source line that is not blank and
+                                  is not a triple-quote line (after its indentation) is among them — no code line is silently dropped,
+                                  whatever the indentation looks like, verbatim regions included;
   * `C03_text_roundtrip`         the same for `Compiler.compile(text)`: numbers are the 1-based positions in the text.
   The verbatim (triple-quote) form and the exact error for every ill-indented text (beyond the two rejection
   theorems above) are validated by the correspondence.
@@ -101,5 +108,19 @@ theorem C03_unit_and_blank_independent (u u' : Str) (hu : GoodUnit u) (hu' : Goo
   rw [parse_roundtrip u hu f hg pls h1, parse_roundtrip u' hu' f hg pls' h2]
 
 theorem C03_list_form (t : List RawTree) : prepare (.tree t) = .ok (convertRecur t 0) := rfl
+
+/-- **no code line is ever silently dropped, invented or reordered** — for ANY source text on which the parser succeeds -/
+theorem C03_no_line_dropped (lines : List Str) (nodes : List Node) (h : parseLines lines = .ok nodes) :
+    (nums (flatL nodes)).Sublist ((List.range lines.length).map (· + 1)) ∧
+    ∀ l ∈ numberLines lines, keepLine l → l.num ∈ nums (flatL nodes) := by
+  have := parseLines_sound lines nodes h
+  rw [nums_numberLines] at this
+  exact this
+
+/-- non-vacuity: an indented command line is a line that must be kept; a blank line and a triple-quote line are not -/
+example : keepLine ⟨"    STRING a".toList, 2⟩ ∧ ¬ keepLine ⟨"   ".toList, 3⟩ ∧ ¬ keepLine ⟨"  \"\"\"".toList, 4⟩ := by
+  refine ⟨⟨by decide, by decide⟩, fun h => ?_, fun h => ?_⟩
+  · exact absurd h.1 (by decide)
+  · exact absurd h.2 (by decide)
 
 end Duckling.Props.C03
